@@ -109,7 +109,7 @@ REG = {
   text="FBuiltins defines the string and list builtins on byte sequences and FRegex an independent regular-expression matcher "
        "(position sets); TLC checks the laws of the statement as invariants (LawLeftRight, LawFind, LawPrefixSuffix, LawPad, "
        "LawReplace) and computes the value of every call and law formula of the bounded family, which is replayed into the real evaluator.",
-  note="Trusted: TLC. Regular expressions are limited to the oracle's pool (72 patterns: literals, ., classes, * + ?, alternation, anchors).",
+  note="Trusted: TLC. Regular expressions are limited to the oracle's pool (92 patterns: literals, ., classes, * + ?, counted repetition {n} / {n,m}, alternation, anchors).",
   technique="TLA+ specification of the builtins + regex oracle model-checked with TLC; exhaustive replay into the real evaluator",
   design="DESIGN.md section 4/C17"),
  "C18": dict(
@@ -142,8 +142,8 @@ REG = {
  "C11": dict(
   text="FCall.CallOutcome states the arity rules (fixed, variadic, spread), the per-kind conversions (truncation, element-wise "
        "slices, nil for interface parameters, identical types) and context injection; TLC checks the arity invariants and "
-       "computes the outcome of 861 k (signature, arguments, spread, return) cases; each is executed against a function "
-       "synthesised with reflect.MakeFunc that records every invocation. Typed Go slices ([]string, []int) are among the arguments; their raw elements are a value kind of their own (goint): pinned towards integer, float and interface parameters, open towards string and *decimal.Big parameters.",
+       "computes the outcome of 1.8 M (signature, arguments, spread, return) cases; each is executed against a function "
+       "synthesised with reflect.MakeFunc that records every invocation. Typed Go slices ([]string, []int) are among the arguments; their raw elements are a value kind of their own (goint): pinned towards integer, float and interface parameters, open towards string and *decimal.Big parameters. A parameter whose type is an application interface merely named Context is an ordinary declared parameter (kind appctx).",
   note="Trusted: TLC, reflect.MakeFunc / FuncOf, value projection. Signatures are limited to two parameters.",
   technique="TLA+ call-bridge specification model-checked with TLC; exhaustive replay against reflectively synthesised recording functions",
   design="DESIGN.md section 4/C11"),
@@ -152,7 +152,7 @@ REG = {
        "evaluation = function of (tree, data), analysis = function of tree; invariant Functional); every history up to N is "
        "executed in one process with tree re-use and full tree dumps before/after; a long random history recorded from one "
        "process is validated by Trace_Purity, whose history variable holds the first observation of every key; the recording is made "
-       "by two processes with opposite prologue orders, so observations are also compared across histories that share no process.",
+       "by two processes with opposite prologue orders, so observations are also compared across histories that share no process. The pool includes two Go struct types with the same printed name and different layouts.",
   note="Trusted: TLC, the tree dump of the driver (everything reachable through exported fields and accessors).",
   technique="TLA+ history model checked with TLC; exhaustive history replay + TLC trace validation with a first-observation history variable",
   design="DESIGN.md section 4/C08"),
